@@ -303,7 +303,7 @@ CLAIMS = {
         "(type system gives independence of source and result); that they obtain elements only via iter().cloned() resp. "
         "feed every item to push_back, and clone_from clears first; that From<[T;M]> copies out, destroys the rest and "
         "disarms the source on every path with header start=0, size in {M,N} each <= N, and never targets an armed local. "
-        "What the conversions are built from is decided under this property too, for symbolic N (so capacity 1 as any other): push_back stores every item it is given and returns Some only when full (C02's OWN1/STORE1/FULL1 on push_back), and pop_front/pop_back — the owning iterator — answer None only over edges establishing N == 0 or size == 0 (NONE1). Not decided: which array part is kept; order (inherits push_back, C01).",
+        "What the conversions are built from is decided under this property too, for symbolic N (so capacity 1 as any other): push_back stores every item it is given and returns Some only when full (C02's OWN1/STORE1/FULL1 on push_back), and pop_front/pop_back — the owning iterator — answer None only over edges establishing N == 0 or size == 0 (NONE1). FROMARR2: the block From<[T;M]> keeps is [M - size, M) (the last elements), copied to slot 0, the destroyed block is [0, M - size) and the header counts exactly the copied elements — equalities of linear forms read from the copy's operands, the range given to drop_in_place and the returned aggregate. Not decided: element order produced by the push_back loop (C01).",
         note="Shape rules on small forwarding functions; a behaviour-preserving rewrite would be reported.",
         ref="DESIGN.md §5 C12",
     ),
